@@ -75,6 +75,30 @@ def run_case(wire, op, plan, cap, before=()):
     return obs
 
 
+def run_connect(wire, plan, cap):
+    """connect() itself under segmentation: the greeting is the capability reply `wire`, AUTHENTICATE is answered OK"""
+    from . import ms_impl as M
+    replies = [b'OK "auth ok"\r\n', SENT1, SENT2]
+
+    def server(w, sock):
+        return replies.pop(0) if replies else None
+    s = M.FakeSocket(server, plan=plan, cap=cap)
+    s.push(wire)
+    c = M.ms.Client("h")
+    with M.Patched([s]):
+        res = M.call(c.connect, "user", "pass")
+    obs = {"res": res, "errcode": c.errcode, "errmsg": c.errmsg, "left": s.leftover(), "buf": M.private_buffer(c),
+           "nwrites": len(s.writes)}
+    for g in ("get_sasl_mechanisms", "has_tls_support", "get_implementation", "get_sieve_capabilities"):
+        obs[g] = M.call(getattr(c, g))
+    if res[0] != "hang":
+        s.plan = lambda b: [len(b)]
+        s.cap = 0
+        obs["s1"] = M.call(c.listscripts)
+        obs["s2"] = M.call(c.havespace, "s", 1)
+    return obs
+
+
 def clean_after(obs):
     return (obs.get("s1") == ("ret", (None, ["z"])) and obs.get("s2") == ("ret", True)
             and not obs["left"] and not obs["buf"])
@@ -230,6 +254,22 @@ def _work(task):
                              "what": "result depends on the segmentation"})
             elif not ok and devs is None:
                 pass
+    if prop == "C05" and r["fam"] == "caps":
+        # the operation `connect': greeting (this capability reply) and the AUTHENTICATE answer under every schedule
+        base = run_connect(wire, None, 0)
+        n_exec += 1
+        n = len(wire)
+        scheds = [("cut", c, 0) for c in cuts_single(n)][:: (3 if tier == "quick" else 1)]
+        scheds += [("cap", None, c) for c in (1, 2, 3, 7, 64)]
+        scheds += [("rand", random_split(n, rng), 0) for _ in range(5 if tier == "quick" else 40)]
+        keys = ("res", "get_sasl_mechanisms", "has_tls_support", "get_implementation", "get_sieve_capabilities", "s1", "s2")
+        for kind, plan, cap in scheds:
+            o2 = run_connect(wire, (lambda b, p=plan: (p if p else [len(b)])), cap)
+            n_exec += 1
+            if any(o2.get(k) != base.get(k) for k in keys) or o2["left"]:
+                recs.append({"reply": r["tag"], "wire": repr(wire), "op": "connect", "schedule": [kind, plan, cap],
+                             "obs": repr(o2), "base": repr(base), "expl": None,
+                             "what": "result depends on the segmentation"})
     return n_exec, recs
 
 
